@@ -184,11 +184,33 @@ func (c *Config) Upgrader() (ws.Upgrader, *Built) {
 	if c.HasProtocol {
 		u.Protocol = func(p []byte) bool { return c.AcceptsProtocol(string(p)) }
 	}
+	if c.ProtoCustom != ProtoCustomNone {
+		u.ProtocolCustom = func(v []byte) (string, bool) {
+			b.Calls["ProtocolCustom"]++
+			return c.CustomProtocol(string(v)) // a fresh string, valid after Upgrade returns
+		}
+	}
 	switch c.ExtMode {
 	case ExtSelector:
 		u.Extension = c.selector()
 	case ExtNegotiate:
 		u.Negotiate = c.negotiator(b)
+	case ExtCustom:
+		u.ExtensionCustom = func(v []byte, dst []httphead.Option) ([]httphead.Option, bool) {
+			b.Calls["ExtensionCustom"]++
+			got, ok := c.CustomExtensions(string(v))
+			for _, o := range got { // fresh byte slices: "returned options should be valid until Upgrade returns"
+				h := httphead.Option{Name: []byte(o.Name)}
+				for _, p := range o.Params {
+					h.Parameters.Set([]byte(p.Key), []byte(p.Value))
+				}
+				dst = append(dst, h)
+			}
+			return dst, ok
+		}
+		if c.ExtSelectorAlso {
+			u.Extension = func(httphead.Option) bool { return true }
+		}
 	}
 	if c.OnRequest.Kind != CbNil {
 		err := b.outcomeErr("OnRequest", c.OnRequest)
